@@ -371,15 +371,93 @@ def _push(stmts: List[ast.stmt], v: str, default: Optional[ast.AST], mk) -> Opti
     return list(stmts) + mk(default)
 
 
-def flags_to_branches(fn: ast.AST, unknown: Set[str]) -> int:
+def _record_mk(use: ast.If, v: str):
+    def mk(e):
+        if isinstance(e, ast.Constant):
+            return []
+        body = copy.deepcopy(use.body)
+
+        class Sub(ast.NodeTransformer):
+            def visit_Subscript(s_, n):
+                s_.generic_visit(n)
+                if isinstance(n.value, ast.Tuple) and isinstance(n.slice, ast.Constant) and isinstance(n.slice.value, int) \
+                        and -len(n.value.elts) <= n.slice.value < len(n.value.elts):
+                    return n.value.elts[n.slice.value]
+                return n
+
+            def visit_Name(s_, n):
+                return copy.deepcopy(e) if n.id == v and isinstance(n.ctx, ast.Load) else n
+        out_ = []
+        for st_ in body:
+            st_ = Sub().visit(st_)
+            # `a, b = (x, y)` with independent sides: `a = x; b = y`
+            if isinstance(st_, ast.Assign) and len(st_.targets) == 1 and isinstance(st_.targets[0], ast.Tuple) and isinstance(st_.value, ast.Tuple) \
+                    and len(st_.targets[0].elts) == len(st_.value.elts) and all(isinstance(t, ast.Name) for t in st_.targets[0].elts):
+                tn = [t.id for t in st_.targets[0].elts]
+                # sequential assignment is the same when no value reads a target that was assigned before it
+                if not any(isinstance(x, ast.Name) and x.id in tn[:i_] for i_, val_ in enumerate(st_.value.elts) for x in ast.walk(val_)):
+                    out_ += [ast.copy_location(ast.Assign(targets=[t], value=val_, type_comment=None), st_) for t, val_ in zip(st_.targets[0].elts, st_.value.elts)]
+                    continue
+            out_.append(st_)
+        return out_
+    return mk
+
+
+def _records_to_branches(fn: ast.AST, v: str, stores, loads) -> int:
+    """every read of v sits in an `if v:` (test or body) whose preceding statement assigns v on all of its paths, in tail position,
+    None / False or a tuple literal; every store of v sits in such a carrier: each pair is rewritten on its own"""
+    pairs = []
+    for b in _blocks(fn):
+        for i in range(1, len(b)):
+            use, carrier = b[i], b[i - 1]
+            if not (isinstance(use, ast.If) and not use.orelse and isinstance(use.test, ast.Name) and use.test.id == v):
+                continue
+            if not (isinstance(carrier, ast.If) and _only_tail_assigns([carrier], v)):
+                continue
+            if _push([carrier], v, None, lambda e: [ast.Pass()]) is None:
+                continue  # some path through the carrier leaves v as it was
+            pairs.append((b, carrier, use))
+    if not pairs:
+        return 0
+    cov_l = {id(x) for _, _, use in pairs for x in ast.walk(use) if isinstance(x, ast.Name) and x.id == v and isinstance(x.ctx, ast.Load)}
+    cov_s = {id(x) for _, carrier, _ in pairs for x in ast.walk(carrier) if isinstance(x, ast.Name) and x.id == v and isinstance(x.ctx, ast.Store)}
+    if {id(x) for x in loads} != cov_l or {id(x) for x in stores} != cov_s:
+        return 0
+    if any(isinstance(x, ast.Name) and x.id == v and isinstance(x.ctx, ast.Store) for _, _, use in pairs for x in ast.walk(use)):
+        return 0
+    n = 0
+    for b, carrier, use in pairs:
+        new = _push([carrier], v, None, _record_mk(use, v))
+        if new is None:
+            continue
+        i = b.index(carrier)
+        b[i:i + 2] = new
+        n += 1
+    return n
+
+
+def flags_to_branches(fn: ast.AST, unknown: Set[str], record_candidates: Set[str] = frozenset()) -> int:
     """A local the reference tree does not know that only carries a verdict from the arms of an if-chain to one use right after it
     (`ok = False; if c: ok = A else: ok = B` ... `return ok` / `if ok: BODY`) is the spelling `single exit with a flag`: the use is
     pushed back into the arms (`return A` / `if A: BODY`)."""
     done = 0
-    for v in sorted(unknown):
+    for v in sorted(set(unknown) | set(record_candidates)):
         stores = [x for x in ast.walk(fn) if isinstance(x, ast.Name) and x.id == v and isinstance(x.ctx, ast.Store)]
         loads = [x for x in ast.walk(fn) if isinstance(x, ast.Name) and x.id == v and isinstance(x.ctx, ast.Load)]
-        if not stores or len(loads) != 1:
+        if not stores or not loads:
+            continue
+        if v not in unknown and len(loads) == 1:
+            continue  # a name the reference tree does not have, initialised like one of its locals: only the record form is undone
+        record = False
+        if len(loads) != 1:
+            # a record carried to one `if v:` whose body reads its fields (`a, b = v`, `v[1]`): every arm assigns None / False or
+            # a tuple literal - `found = helper(..)` after inlining a helper that returns `None` or `(x, y, z)`
+            vals = [a.value for a in ast.walk(fn) if isinstance(a, ast.Assign) and len(a.targets) == 1 and isinstance(a.targets[0], ast.Name) and a.targets[0].id == v]
+            if len(vals) != len(stores) or not all((isinstance(e, ast.Constant) and not e.value) or (isinstance(e, ast.Tuple) and e.elts) for e in vals):
+                continue
+            record = True
+        if record:
+            done += _records_to_branches(fn, v, stores, loads)
             continue
         for b in _blocks(fn):
             # the use: `return v` or `if v:` / `if not v:` without else, directly in this block
@@ -549,6 +627,44 @@ def unfold_pipelines(fn: ast.AST, unknown: Set[str]) -> int:
     return done
 
 
+def dictcomp_to_loops(fn: ast.AST, ref: Dict[str, str]) -> int:
+    """`return {k: v for t in it [if c]}` in a function whose reference version built that dict in a local `D = dict()` / `D = {}`
+    filled by a loop: back to `D = dict(); for t in it: [if c:] D[k] = v; return D` (the reference spelling of a
+    `loop -> dict comprehension` refactoring). Only when D is no longer bound in the function."""
+    names = [nm for key, nm in ref.items() if key.split("#")[0] in ("=dict()", "={}")]
+    if len(names) != 1:
+        return 0
+    D = names[0]
+    if any(isinstance(x, ast.Name) and x.id == D for x in ast.walk(fn)):
+        return 0
+    done = 0
+    for b in list(_blocks(fn)):
+        for i, st in enumerate(list(b)):
+            if not (isinstance(st, ast.Return) and isinstance(st.value, ast.DictComp) and len(st.value.generators) == 1
+                    and not st.value.generators[0].is_async):
+                continue
+            dc = st.value
+            g = dc.generators[0]
+            store = ast.Assign(targets=[ast.Subscript(value=ast.Name(id=D, ctx=ast.Load()), slice=dc.key, ctx=ast.Store())], value=dc.value, type_comment=None)
+            body: List[ast.stmt] = [store]
+            if g.ifs:
+                test = g.ifs[0] if len(g.ifs) == 1 else ast.BoolOp(op=ast.And(), values=list(g.ifs))
+                body = [ast.If(test=test, body=[store], orelse=[])]
+            init = ast.Assign(targets=[ast.Name(id=D, ctx=ast.Store())], value=ast.Call(func=ast.Name(id="dict", ctx=ast.Load()), args=[], keywords=[]), type_comment=None)
+            loop = ast.For(target=g.target, iter=g.iter, body=body, orelse=[], type_comment=None)
+            for t in ast.walk(loop.target):
+                if isinstance(t, ast.Name):
+                    t.ctx = ast.Store()
+            ret = ast.Return(value=ast.Name(id=D, ctx=ast.Load()))
+            for new in (init, loop, ret):
+                ast.copy_location(new, st)
+            j = b.index(st)
+            b[j:j + 1] = [init, loop, ret]
+            done += 1
+            break
+    return done
+
+
 def unknown_locals(tree: ast.Module, modname: str) -> Dict[str, Set[str]]:
     """per top-level function / method: the locals whose defining signature the reference tree does not know. Computed before
     the surface normalisation drops annotation-only statements (they are part of the signatures)."""
@@ -577,14 +693,21 @@ def inline_aliases(tree: ast.Module, modname: str, unknown_map: Optional[Dict[st
     if unknown_map is None:
         unknown_map = unknown_locals(tree, modname)
     n = 0
+    table = localsig.load_table().get(modname) or {}
     for q, fn in localsig.top_functions(tree):
+        if table.get(q):
+            n += dictcomp_to_loops(fn, table[q])
         unknown = unknown_map.get(q)
         if not unknown:
             continue
         n += inline_aliases_in(fn, unknown)
         n += loops_to_comprehensions(fn, unknown)
         n += worklist_to_recursion(fn, unknown)
-        n += flags_to_branches(fn, unknown)
+        ref_names = set((table.get(q) or {}).values())
+        bound = {x.id for x in ast.walk(fn) if isinstance(x, ast.Name) and isinstance(x.ctx, ast.Store)}
+        k = flags_to_branches(fn, unknown, bound - ref_names if ref_names else frozenset())
+        if k:
+            n += k + inline_aliases_in(fn, unknown)
         n += unfold_pipelines(fn, unknown)
     if n:
         ast.fix_missing_locations(tree)
